@@ -52,7 +52,7 @@ const (
 	tokIn  = "inside-token-51c2"
 )
 
-var outsideOnlyNames = map[string]bool{"secret": true, "sib": true, "sfile": true, "leak": true, "peer.txt": true, "hostsecret": true}
+var outsideOnlyNames = map[string]bool{"secret": true, "sib": true, "sfile": true, "leak": true, "peer.txt": true, "hostsecret": true, "xsrc": true, "jxcopy": true}
 
 func (f *fixture) writeAll() error {
 	w := f.W
@@ -85,11 +85,29 @@ func (f *fixture) writeAll() error {
 			}
 		}
 	}
-	if err := w.WriteFile(j("x"), []byte(tokIn+"-x"), 0644); err != nil {
+	if jp != "" {
+		// the jail's file "x" arrives by a copy from outside, and "jail/x" is copied out of the
+		// jail afterwards (what a parent does with its child's directory): copies are deep, so a
+		// later write through the view must not reach the other side of the border
+		if err := w.WriteFile("sib/xsrc", []byte(tokIn+"-x"), 0644); err != nil {
+			return err
+		}
+		if err := w.MkdirAll(jp, 0777); err != nil {
+			return err
+		}
+		if err := w.CopyFile("sib/xsrc", j("x")); err != nil {
+			return err
+		}
+	} else if err := w.WriteFile(j("x"), []byte(tokIn+"-x"), 0644); err != nil {
 		return err
 	}
 	if err := w.WriteFile(j("jail/x"), []byte(tokIn+"-jx"), 0644); err != nil {
 		return err
+	}
+	if jp != "" {
+		if err := w.CopyFile(j("jail/x"), "sib/jxcopy"); err != nil {
+			return err
+		}
 	}
 	return w.MkdirAll(j("d"), 0777)
 }
